@@ -747,11 +747,7 @@ def _c09():
         ("pages_p1_16", 1, 16, 12, 8, "thorough"),
         ("pages_p1_48_a1", 1, 48, 30, 7, "thorough"),
         ("pages_p2_16_a1", 2, 16, 12, 8, "thorough"),
-        ("pages_p2_48_a1", 2, 48, 30, 7, "thorough"),
-        ("pages_p1_96_a1", 1, 96, 90, 7, "thorough"),
-        ("pages_p1_336_a1", 1, 336, 160, 16, "thorough"),
         ("pages_p2_16", 2, 16, 12, 8, "thorough"),
-        ("pages_p3_16", 3, 16, 12, 8, "thorough"),
     ]:
         hs.append(ctl_h("c09::" + nm, "Sign::send_pages with %d page(s) of %dx%d (%d bytes each, ALL bytes symbolic, also header/padding) against a conformant sign with symbolic per-attempt result: every chunk <=16 bytes, offsets 0,16,.. restarting per page, concatenation equals the page, count = chunks since the request, then query; %s" % (p, w, h, ilen, "first attempt only (retries are covered at the 16-byte size)" if nm.endswith("_a1") else "up to 3 attempts"), tier=tier, ilen=ilen, p=p, timeout=5400, mem=10 if ilen > 48 else 8, pages=p, page_bytes=ilen, **({"attempts": 1} if nm.endswith("_a1") else {})))
     return Prop(
